@@ -436,10 +436,13 @@ class DependsWorld:
         hows = [('any', 3), ('equal', 2), ('first', 1.5), ('later', 2)]
         for _ in range(n_ops):
             k = weighted(rng, [('attach', 6), ('detach', 1.0), ('leaf', 6), ('leaf2', 1.5), ('swap2', 2 if len(slots) > 1 else 0), ('own', 0.7),
-                               ('subbatch', 1.2),
+                               ('subbatch', 1.2), ('swap_twice', 1.0),
                                ('drain', 1.0 if any(m.get('async') for m in methods) else 0)])
             if k == 'drain':
                 ops.append({'op': 'drain'})
+            elif k == 'swap_twice':
+                ops.append({'op': 'swap_twice', 'at': rng.randint(0, cfg['pool']), 'slot': rng.choice(slots), 'n1': rng.randrange(cfg['pool']),
+                            'n2': rng.randrange(cfg['pool']), 'how1': weighted(rng, hows), 'how2': weighted(rng, [('equal', 3), ('any', 1), ('first', 1)])})
             elif k == 'subbatch':
                 ops.append({'op': 'subbatch', 'n': rng.randrange(cfg['pool']), 'p': rng.choice(leafs), 'at': rng.randint(0, cfg['pool']),
                             'slot': rng.choice(slots), 'n2': rng.randrange(cfg['pool']), 'how': weighted(rng, [('equal', 4), ('any', 1), ('first', 1)])})
@@ -647,6 +650,29 @@ class DependsWorld:
                     ever_attached.update((n1, n2))
                     out.stats['probe.two_slots_replaced_in_one_batch'] += 1
                     desc = f"batch-attach N{n1},N{n2} under {h} ({op.get('how1')},{op.get('how2')})"
+                elif k == 'swap_twice':
+                    # the same slot replaced twice inside one batch on the holder: one coalesced change, from the object
+                    # attached before the batch to the one attached at its end
+                    h = holder(op['at'])
+                    sl = op.get('slot', 'sub')
+                    if sl not in SLOTS:
+                        sl = SLOTS[0]
+                    n1, n2 = op['n1'] % len(pool), op['n2'] % len(pool)
+                    if n1 == n2 or h in (n1, n2) or (h != 'P' and (h in reachable(n1) or h in reachable(n2))):
+                        continue
+                    if n1 in reachable() or n2 in reachable():
+                        continue
+                    if not shape(n1, att[(h, sl)], op.get('how1', 'any')) or not shape(n2, n1, op.get('how2', 'equal')):
+                        break
+                    del log[:]
+                    before = snapshot()
+                    with param.parameterized.batch_call_watchers(real(h)):
+                        setattr(real(h), sl, pool[n1])
+                        setattr(real(h), sl, pool[n2])
+                    att[(h, sl)] = n2
+                    ever_attached.update((n1, n2))
+                    out.stats['probe.slot_replaced_twice_in_one_batch'] += 1
+                    desc = f"batch: attach N{n1} then N{n2} under {h}.{sl} ({op.get('how1')},{op.get('how2')})"
                 elif k == 'detach':
                     h = holder(op['at'])
                     sl = op.get('slot', 'sub')
@@ -752,7 +778,7 @@ class DependsWorld:
                 b, a = before[mi], after[mi]
                 n_calls = got.count(mi)
                 unresolved = any(x == 'UNRESOLVED' or y == 'UNRESOLVED' for x, y in zip(b, a))
-                if k in ('attach', 'detach', 'swap2') and any(isinstance(x, tuple) and isinstance(y, tuple) and
+                if k in ('attach', 'detach', 'swap2', 'swap_twice') and any(isinstance(x, tuple) and isinstance(y, tuple) and
                                                              (x[4][1] is not None or x[4][2] is not None) and (y[4][1] is not None or y[4][2] is not None)
                                                              for x, y in zip(b, a)):
                     # '...param' over nodes that themselves hold a node: equality of Parameterized values is unspecified
